@@ -8,6 +8,7 @@
 package scn
 
 import (
+	"context"
 	"fmt"
 
 	"github.com/aperturerobotics/util/zzverif/vsched"
@@ -48,3 +49,27 @@ const (
 )
 
 var stdObs = map[int32]string{oAcq: "acquire", oRel: "release", oErr: "error", oTryFail: "try-failed", oRet: "return", oCall: "call", oVal: "value", oEnter: "enter", oExit: "exit", oCb: "callback", oOp: "op"}
+
+// expCtx is a context that expires (deadline passed) instead of being cancelled: once expire()
+// was called Done() is closed and Err() is context.DeadlineExceeded. No clock is involved.
+type expCtx struct {
+	context.Context
+	done chan struct{}
+}
+
+func newExpCtx(parent context.Context) *expCtx {
+	return &expCtx{Context: parent, done: make(chan struct{})}
+}
+
+func (c *expCtx) Done() <-chan struct{} { return c.done }
+
+func (c *expCtx) Err() error {
+	select {
+	case <-c.done:
+		return context.DeadlineExceeded
+	default:
+		return nil
+	}
+}
+
+func (c *expCtx) expire() { close(c.done) }
